@@ -5,7 +5,9 @@ from .. import vlib
 TRUSTED = [
     "Lean 4.33 kernel; axioms per theorem listed under coverage.axioms (subset of propext, Classical.choice, Quot.sound)",
     "translate/serialops.py (clang++-14 record layouts + token-level scan of serializeOp / operator== bodies -> Gen/SerialClasses.lean)",
-    "harness/serial.cpp, serial_codec.hpp, serial_objects.hpp, serial_probes.hpp + lib/vlib.py differ; model driver (compiled Lean)",
+    "harness/serial.cpp, serial_codec.hpp, serial_objects.hpp, serial_probes.hpp, serial_flags.hpp + lib/vlib.py differ; model driver (compiled Lean)",
+    "harness/serial_bitsets.cpp compiles opm/common/utility/MemPacker.cpp of the working tree a second time to instantiate the bitset packer for "
+    "widths the library lacks (1, 8, 16, 32, 33, 64); it replaces the archive member MemPacker.o in the harness binary (same source file)",
     "modelled, not verified: the C++ has no bounds checks on UNPACK (short buffer / bool byte other than 0,1 is UB there, an error in the model); "
     "memcpy packing of padded PODs; HAVE_DUNE branches; "
     "pointer layer: the addresses make_shared returns are a parameter (assumed injective = distinct live objects), a buffer whose pointee "
@@ -22,7 +24,7 @@ def _hdr_hash():
     serializeOp): its cache key must cover the repo headers, not only the library archive."""
     from translate import serialops
     h = hashlib.sha256()
-    for fn in ("serial_codec.hpp", "serial_objects.hpp", "serial_probes.hpp"):
+    for fn in ("serial_codec.hpp", "serial_objects.hpp", "serial_probes.hpp", "serial_flags.hpp"):
         h.update(open(os.path.join(vlib.VERIF, "harness", fn), "rb").read())
     for p in serialops._sources(vlib.REPO):
         if p.endswith(".hpp"):
@@ -52,7 +54,9 @@ def run(ctx):
     ctx.stage_translate(["serialops"])
     if not ctx.stage_build_opm():
         return ctx.finish(trusted_base=TRUSTED)
-    ok, exe, out = vlib.build_harness("serial", extra_flags=(f"-DSERIAL_HDR_HASH={_hdr_hash()}",))
+    # second TU: MemPacker.cpp of the working tree + bitset instantiations for widths the library lacks
+    ok, exe, out = vlib.build_harness("serial", extra_src=(os.path.join(vlib.VERIF, "harness", "serial_bitsets.cpp"),),
+                                      extra_flags=(f"-DSERIAL_HDR_HASH={_hdr_hash()}",))
     if not ok:
         ctx.tie_broken("harness", "serial harness does not compile: " + out[-2000:])
         return ctx.finish(trusted_base=TRUSTED)
